@@ -427,3 +427,39 @@ def dynamic_check(ctx, invalid, total, rule, modelled=True):
         "queries on labels that are not arguments of the current framework are out of scope (never generated)",
     ]
     ctx.finish()
+
+
+# ------------------------------------------------------------------ replay of one case file (bin/check C08|C09 --replay FILE)
+
+
+def replay(ctx, path):
+    """Re-executes the histories of a replay file on the real solvers (harness `dynamic --replay`), then judges them with
+    the brute-force oracle (driver dynspec) and replays them on the extracted model (driver dynamic); prints the three."""
+    h = build_harness(ctx)
+    d = build_driver(ctx)
+    if not h or not d:
+        print("build of harness / driver failed")
+        sys.exit(2)
+    o = os.path.join(ctx.work, "replay.cases")
+    rc, out = sh("%s dynamic --replay %s --out %s" % (h, path, o), timeout=300)
+    if rc not in (0, 3):
+        print("harness failed:\n" + out[-2000:])
+        sys.exit(2)
+    bad = False
+    rc1, spec = sh("%s dynspec %s" % (d, o), timeout=300)
+    rc2, model = sh("%s dynamic %s --thr %d" % (d, o, hybrid_threshold()), timeout=300)
+    sp, mp = o + ".dynspec", o + ".dynamic"
+    open(sp, "w").write(spec)
+    open(mp, "w").write(model)
+    impl, specs, models = parse_cases(o), parse_cases(sp) if rc1 == 0 else [], parse_cases(mp) if rc2 == 0 else []
+    for i, c in enumerate(impl):
+        print(c.text(), end="")
+        if i < len(specs):
+            v = verdict_of(specs[i])
+            print("oracle: " + v)
+            bad = bad or v.startswith("bad")
+        if i < len(models):
+            why = compare_with_model(c, models[i])
+            print("model : " + ("agrees" if why is None else why))
+            bad = bad or (why is not None and why not in ("not-modelled", "skipped-long-script"))
+    sys.exit(1 if bad else 0)
